@@ -440,6 +440,20 @@ class HookModel:
         def raise_injected():
             return ["raise", fault[1], "injected fault"]
 
+        def under_fault(f):
+            """a "module:function" fault (harness/c06.py fault_sweep) is in force while the REAL function answers the model"""
+            if not (fault and ":" in fault[0]):
+                return f
+
+            def w(*a):
+                from . import hook_fault
+                undo = hook_fault.install(fault[0], fault[1])
+                try:
+                    return f(*a)
+                finally:
+                    undo()
+            return w
+
         def resolve(s):
             def f():
                 old = os.getcwd()
@@ -491,7 +505,7 @@ class HookModel:
             if injected("analyze"):
                 return raise_injected()
             undo = None
-            if fault and fault[0] in ("parse", "get_handler", "match_command", "match_redirect"):
+            if fault and (fault[0] in ("parse", "get_handler", "match_command", "match_redirect") or ":" in fault[0]):
                 from . import hook_fault
                 undo = hook_fault.install(fault[0], fault[1])
             try:
@@ -525,8 +539,8 @@ class HookModel:
                 return ["raise", "UnicodeError", ""]
             return ["ok", []]
 
-        return {"resolve": resolve, "getcwd": getcwd, "load_config": load_config,
-                "configure_logging": configure_logging, "log_decision": log_decision, "analyze": analyze,
+        return {"resolve": resolve, "getcwd": getcwd, "load_config": under_fault(load_config),
+                "configure_logging": under_fault(configure_logging), "log_decision": under_fault(log_decision), "analyze": analyze,
                 "gmatch": gmatch, "words": words, "after_prep": after_prep, "after_rule": after_rule,
                 "print": print_}
 
